@@ -141,6 +141,20 @@ Example c05_optional_dep_range_example :
   (exists e, unmarshal 6 t (JObj [("v", JNum "3" (mkfi true true true))]%string) = Err e).
 Proof. vm_compute. repeat split; try reflexivity; eexists; reflexivity. Qed.
 
+(* the member's OWN key present with a null value: it counts as present for the both-or-neither / either-or rule
+   (has_key), and null is accepted only when the RESOLVED flag is optional -- with optional=b, {"b":1,"v":null} fails like
+   an absent v; with optional=!b, {"v":null} fails; {"b":null} makes b present, so v (optional=!b) is optional *)
+Example c05_optional_dep_null_example :
+  let fi := mkfi true true true in
+  let t neg := Struct [mkfield "v" (mkopts true None [] None false (Some (neg, "b")) false) false (Prim (KInt W64));
+                       mkfield "b" (mkopts true None [] None false None false) false (Prim (KInt W64))]%string in
+  (exists e, unmarshal 6 (t false) (JObj [("b", JNum "1" fi); ("v", JNull)]%string) = Err e) /\
+  (exists e, unmarshal 6 (t false) (JObj [("b", JNum "1" fi)]%string) = Err e) /\
+  (exists e, unmarshal 6 (t true) (JObj [("v", JNull)]%string) = Err e) /\
+  unmarshal 6 (t true) (JObj [("b", JNull)]%string) = Ok (VStruct [VInt 0; VInt 0]) /\
+  unmarshal 6 (t false) (JObj []) = Ok (VStruct [VInt 0; VInt 0]).
+Proof. vm_compute. repeat split; try reflexivity; eexists; reflexivity. Qed.
+
 (* a present value outside options= makes it fail (contrapositive: success => the value's text is an option).
    Domain (options_enforced_on): scalar and pointer-to-scalar fields of every kind; a Duration only when it is
    `string`-tagged.  Outside the domain the code does not consult options= (c05_options_unenforced). *)
